@@ -1527,6 +1527,14 @@ get_pure_virtual_funcs(VFunctions &funcs) const {
   for (vfi = vfuncs.begin(); vfi != vfuncs.end(); ++vfi) {
     CPPInstance *inst = (*vfi);
     if ((inst->_storage_class & CPPInstance::SC_pure_virtual) != 0) {
+      CPPFunctionType *ftype = inst->_type->as_function_type();
+      if (ftype != nullptr &&
+          (ftype->_flags & CPPFunctionType::F_destructor) != 0 &&
+          inst != get_destructor()) {
+        // A pure virtual destructor of a base class is always overridden, by
+        // the implicit destructor if this class does not declare one.
+        continue;
+      }
       funcs.push_back(inst);
     }
   }
